@@ -20,6 +20,8 @@
 #include <getopt.h>
 #include <sys/syscall.h>
 #include <sys/stat.h>
+#include <sys/prctl.h>
+#include <csignal>
 
 #ifdef OPENSMT_VERIF
 #include <common/VerifHooks.h>
@@ -91,6 +93,8 @@ static void putstr(std::string & o, std::string const & s) { put32(o, s.size());
 
 int main(int argc, char ** argv) {
     if (argc < 2) { fprintf(stderr, "usage: osmt_worker <scratch-prefix>\n"); return 2; }
+    prctl(PR_SET_PDEATHSIG, SIGKILL); // a worker spinning in a diverging check-sat must not outlive its driver
+    if (getppid() == 1) return 2;
     std::string pre = argv[1];
     std::string fOut = pre + ".out", fErr = pre + ".err", fTr = pre + ".trace", fScript = pre + ".smt2";
     int rfd = argc > 2 ? atoi(argv[2]) : 3; // responses
